@@ -26,7 +26,8 @@ ASSUMPTIONS = [
 ]
 N = {'quick': 500, 'thorough': 4000}
 STORAGES = ['new_pickle', 'new_copy', 'wu', 'cache', 'cache_eager', 'diskcache']
-READS = ['idx', 'neg', 'np', 'key', 'slice', 'iter', 'items', 'copy', 'view']
+READS = ['idx', 'neg', 'np', 'key', 'slice', 'iter', 'items', 'copy', 'copyf', 'view', 'iter_mut', 'items_mut',
+         'prefetch_twice']
 MUTS = ['set', 'append', 'del', 'clear', 'nested', 'array', 'array_scale']
 
 
@@ -117,10 +118,11 @@ class World:
                 self.tmp = tempfile.mkdtemp(prefix='verif_c09_')
                 self.ds = raw.diskcache(self.tmp, reuse=False, clear=True)
         self.copy = None
+        self.copyf = None
         self.view = None
 
     def close(self):
-        self.ds = self.copy = self.view = None
+        self.ds = self.copy = self.copyf = self.view = None
         import gc
         gc.collect()
         if self.tmp:
@@ -156,6 +158,32 @@ class World:
             if self.copy is None:
                 self.copy = ds.copy()
             return [(p, self.copy[p])]
+        if how == 'copyf':
+            if self.copyf is None:
+                self.copyf = ds.copy(freeze=True)
+            return [(p, self.copyf[p])]
+        if how in ('iter_mut', 'items_mut'):
+            # the consumer mutates every example inside the loop body, i.e. between two next() calls
+            out = []
+            it = ds.items() if (how == 'items_mut' and self.keys is not None) else ds
+            for i, obj in enumerate(it):
+                out.append((i, copy.deepcopy(obj)))
+                mutate(obj, 'set')
+                mutate(obj, 'array')
+            return [(i, o) for i, o in out] + [('mutated-in-loop', None)]
+        if how == 'prefetch_twice' and self.case['storage'] in ('cache', 'diskcache'):
+            # two concurrent misses of a lazy cache over the RAW upstream would both hand out the upstream's own
+            # object (an artefact of the raw upstream, not of the cache): use a plain read there
+            return [(p, ds[p])]
+        if how == 'prefetch_twice':
+            # an index visited twice in one epoch behind a stage that freezes its input
+            view = ds[[p, p]].prefetch(2, 2)
+            got = []
+            for obj in view:
+                got.append((p, copy.deepcopy(obj)))
+                mutate(obj, 'append')
+                mutate(obj, 'array')
+            return got + [('mutated-in-loop', None)]
         if how == 'view':
             if self.view is None:
                 self.view = ds[::-1]
@@ -182,6 +210,9 @@ class World:
                 raise Violation(f'scan-items|{self.case["storage"]}', f'{desc}\nitems() == {items}')
         if self.copy is not None and not deq(list(self.copy), snap):
             raise Violation(f'scan-copy|{self.case["storage"]}', f'{desc}\nlist(copy) == {list(self.copy)}')
+        if self.copyf is not None and not deq(list(self.copyf), snap):
+            raise Violation(f'scan-frozen-copy|{self.case["storage"]}', f'{desc}\nlist(copy(freeze=True)) == '
+                                                                        f'{list(self.copyf)}')
         if self.view is not None and not deq(list(self.view), snap[::-1]):
             raise Violation(f'scan-view|{self.case["storage"]}', f'{desc}\nlist(ds[::-1]) == {list(self.view)}')
 
@@ -206,10 +237,16 @@ def check(case):
                 except Exception as e:
                     raise Violation(f'read-raised-{how}|{case["storage"]}',
                                     f'{w.case_desc()}\nstep {si}: read {how} at {pos} raised {type(e).__name__}: {e}')
+                in_loop = any(p == 'mutated-in-loop' for p, _ in got)
+                got = [(p, o) for p, o in got if p != 'mutated-in-loop']
+                if in_loop:
+                    for p, _ in got:
+                        mutated[p] = how
                 for p, obj in got:
                     if p in mutated and mutated[p] != how:
                         crossings += 1
-                    if not deq(obj[1] if (how == 'items' and w.keys is not None) else obj, w.snapshot[p]):
+                    if not deq(obj[1] if (how in ('items', 'items_mut') and w.keys is not None) else obj,
+                               w.snapshot[p]):
                         raise Violation(f'read-{how}|{case["storage"]}',
                                         f'{w.case_desc()}\nstep {si}: read {how} of position {p} returned {obj}\n'
                                         f'pristine {w.snapshot[p]}')
